@@ -179,6 +179,11 @@ def run(ctx):
             else:
                 violation({"op": "set_elevation", "selection": "rectangle", "class": "not-assigned"},
                           f"set_elevation({args}) on {s}x{s}: tiles {wrong[:4]} of the rectangle are not at {e}", m)
+        # O4 (statistic, not an alarm of its own): the real result stays inside the interval spanned by the start
+        # elevations and the request - the real-code instance of the theorem `elevations_stay_in_range`
+        state["range_checked"] = state.get("range_checked", 0) + 1
+        if not (min(init + [e]) <= min(el) and max(el) <= max(init + [e])):
+            state["range_outside"] = state.get("range_outside", 0) + 1
         # O2 + closed form (flat start only)
         if flat:
             bad = smooth(el, s)
@@ -247,6 +252,8 @@ def run(ctx):
         case(s, init, rng.randrange(0, hi + 2), x1, y1, x2, y2, tag="rough")
 
     # ------------------------------------------------------------------ correspondence
+    R.extra["range_theorem_on_real_results"] = {"theorem": "Aoe.Props.C20.elevations_stay_in_range",
+                                                "cases": state.get("range_checked", 0), "outside": state.get("range_outside", 0)}
     drv = ctx.driver()
     if drv is not None:
         out = drv.batch(cmds)
